@@ -22,6 +22,11 @@ MANIFEST_META = {
         "add_only": True,
     },
     "engines": [
+        {"name": "libFuzzer", "path": "clang -fsanitize=fuzzer (fuzz/*.cpp)",
+         "kind_free_text": ("coverage-guided fuzzing of structure-aware byte inputs with the semantic oracle inside the target; run by "
+                            "./vf as mode 'fuzz' (C19, C15, C11); artifacts are wrapped into case files and replayed by the property binary")},
+        {"name": "vsched", "path": "harness/vsched.h",
+         "kind_free_text": "deterministic scheduler owning threadpool.c's pthread calls: generated schedules and bounded depth-first enumeration (C13)"},
         {"name": "rapidcheck", "path": "/usr/include/rapidcheck.h",
          "kind_free_text": ("property-based generator (rapidcheck 'gen' combinators used imperatively inside rc::check); failures "
                             "are shrunk by the harness's own text-level delta debugger (harness/vf.h shrink_text) and replayed "
